@@ -117,6 +117,9 @@ impl CatchGradualPerformance {
     /// `n=1` will process 2, and so on.
     #[allow(clippy::missing_panics_doc)]
     pub fn nth(&mut self, state: CatchScoreState, n: usize) -> Option<CatchPerformanceAttributes> {
+        // `Iterator::nth` returns `None` if fewer than `n + 1` objects remain
+        let n = n.min(self.difficulty.len().saturating_sub(1));
+
         let performance = self
             .difficulty
             .nth(n)?
